@@ -140,7 +140,7 @@ Proof.
   destruct (isl st _ ms) as [|raw]; cbn [bind]; [discriminate|]. cbv zeta.
   destruct (iget_map st (i_pos st) me) as [|mp]; cbn [bind]; [discriminate|].
   match goal with |- bind (TK ?inner) _ = _ -> _ => destruct (TK inner) as [|inner'] eqn:Et end; cbn [bind]; [discriminate|].
-  apply TK_depth in Et; [|exact Hc]. unfold idepth in Et. cbn [i_node i_level set_bt iset_bt] in Et. rewrite depth_mk0 in Et.
+  apply TK_depth in Et; [|intros x y []]. unfold idepth in Et. cbn [i_node i_level set_bt iset_bt] in Et. rewrite depth_mk0 in Et.
   destruct (_ <=? me); [|discriminate]. intros H. injection H as <- _. unfold idepth. cbn [i_node set_bt iset_bt].
   rewrite depth_push, (D_step _ Hl). lia.
 Qed.
